@@ -43,8 +43,8 @@ def cases(tier, seed):
 def _cmp(res, p, what, got_sids, expected, extra, witness_base, optional_extra=()):
     got = set(got_sids)
     dup = sorted(s for s in got if got_sids.count(s) > 1 and
-                 not s.startswith('test'))
-    got = {s for s in got if not s.startswith('test')}
+                 not s.startswith('test') and s != 'doppel')
+    got = {s for s in got if not s.startswith('test') and s != 'doppel'}
     # a symlink 'copy' always reflects its target: make/ninja rightly see it as up to
     # date when the target was rebuilt, so its re-run is optional (never *required*)
     optional = {s for s in expected if _symlink_copy(p.model, s)} | set(optional_extra)
@@ -73,7 +73,7 @@ def _cmp(res, p, what, got_sids, expected, extra, witness_base, optional_extra=(
 def run_case(case):
     res = CaseResult()
     spec, backend = case['spec'], case['backend']
-    p = dagrun.Project(spec, backend)
+    p = dagrun.Project(spec, backend, stub_install=True)
     m = p.model
     wb = {'backend': backend, 'index': case.get('index')}
     try:
@@ -178,6 +178,9 @@ def run_case(case):
                    sorted(m.members.items())]
         if m.tests:
             targets.append(('tests', m.test_steps()))
+        if spec.get('install'):
+            # `install` builds the default set first, then runs the (stubbed) install tool
+            targets.append(('install', dflt))
         if len(targets) > 3 and case['max_touch'] < 100:
             targets = rng.sample(targets, 3)
         for name, exp in targets:
@@ -190,6 +193,11 @@ def run_case(case):
             res.ev('targets:alias-or-tests')
             res.evaluations += 1
             _cmp(res, p, 'target-from-clean', sids, exp, {'target': name}, wb)
+            if name == 'install':
+                res.ev('targets:install')
+                if rc != 0 or 'doppel' not in sids:
+                    res.violate((backend, 'install-target', 'did-not-run-the-install-tool'),
+                                dict(wb, rc=rc, output=out[-500:]))
         res.sample = {'backend': backend, 'build.bfg': dag.render(spec)['build.bfg'],
                       'steps': len(m.steps), 'default_steps': sorted(dflt)}
         res.classes.update(st['kind'] for st in m.steps.values())
